@@ -3,6 +3,7 @@ package c12
 
 import (
 	"fmt"
+	"reflect"
 	"sort"
 	"strings"
 	"sync"
@@ -34,6 +35,86 @@ type env struct {
 	peers []*world.Peer
 	mu    sync.Mutex
 	calls []call // invocation log of the approval callbacks
+	gates map[string]*gate
+}
+
+// gate: a callback that does not return at once. It stays inside the invocation for one write
+// until the harness hands it its verdict (which it then gives itself, before returning) or tells it
+// to return without one.
+type gate struct {
+	release  chan string   // the verdict to give from inside the callback; closed: return without a verdict
+	done     chan struct{} // closed when the invocation has returned
+	entered  bool          // an invocation is (or was) waiting at the gate
+	released bool
+}
+
+func gateKey(cb int, ski string, counter model.MsgCounterType) string {
+	return fmt.Sprintf("%d/%s/%d", cb, ski, counter)
+}
+
+// block makes callback cb stay inside its invocation for write w (to be called before the write is sent).
+func (e *env) block(w write, cb int) {
+	e.mu.Lock()
+	defer e.mu.Unlock()
+	if e.gates == nil {
+		e.gates = map[string]*gate{}
+	}
+	e.gates[gateKey(cb, e.peers[w.peer].Ski, w.counter)] = &gate{release: make(chan string, 1), done: make(chan struct{})}
+}
+
+func (e *env) gateOf(w write, cb int) *gate {
+	e.mu.Lock()
+	defer e.mu.Unlock()
+	return e.gates[gateKey(cb, e.peers[w.peer].Ski, w.counter)]
+}
+
+// enter is the callback's side: the first invocation for a gated write waits at the gate.
+func (e *env) enter(cb int, msg *api.Message) {
+	if msg.RequestHeader == nil || msg.RequestHeader.MsgCounter == nil || msg.DeviceRemote == nil {
+		return
+	}
+	e.mu.Lock()
+	g := e.gates[gateKey(cb, msg.DeviceRemote.Ski(), *msg.RequestHeader.MsgCounter)]
+	if g == nil || g.entered {
+		e.mu.Unlock()
+		return
+	}
+	g.entered = true
+	e.mu.Unlock()
+	defer close(g.done)
+	if v, ok := <-g.release; ok {
+		e.srv.ApproveOrDenyWrite(msg, errType(v))
+	}
+}
+
+// verdictInside lets the waiting invocation give verdict v and return; false: it did not return within max.
+func (e *env) verdictInside(g *gate, v string, max time.Duration) bool {
+	e.mu.Lock()
+	if g.released {
+		e.mu.Unlock()
+		return true
+	}
+	g.released = true
+	e.mu.Unlock()
+	g.release <- v
+	select {
+	case <-g.done:
+		return true
+	case <-time.After(max):
+		return false
+	}
+}
+
+// releaseGates lets every invocation that is still waiting return without a verdict (idempotent).
+func (e *env) releaseGates() {
+	e.mu.Lock()
+	defer e.mu.Unlock()
+	for _, g := range e.gates {
+		if !g.released {
+			g.released = true
+			close(g.release)
+		}
+	}
 }
 
 type call struct {
@@ -51,6 +132,7 @@ func newEnv(nPeers, nCallbacks int) *env {
 			e.mu.Lock()
 			e.calls = append(e.calls, call{c, msg})
 			e.mu.Unlock()
+			e.enter(c, msg)
 		})
 	}
 	return e
@@ -85,9 +167,74 @@ type write struct {
 	verdict []string // per callback
 	late    []bool   // per callback: delivered after the time-out
 	bareDst bool     // the destination address of the write names no device (the device part is optional)
+	// full: a write without filter, carrying the complete list (texts of the items 0..2 in payload).
+	// same: its payload is the data the feature holds when the write is sent (the peer writes back
+	// what it has read, or repeats what was written before).
+	full, same bool
+	payload    []string
 }
 
 func (w write) marker() string { return fmt.Sprintf("w-%d-%d", w.peer, w.item) }
+
+func (w write) shape() string {
+	switch {
+	case w.same:
+		return "full-same"
+	case w.full:
+		return "full"
+	}
+	return "partial"
+}
+
+// fullPayload: the texts a full write with other data than the present ones carries.
+func (w write) fullPayload() []string {
+	return []string{w.marker() + "/0", w.marker() + "/1", w.marker() + "/2"}
+}
+
+// apply folds the write into the texts of the items 0..2.
+func (w write) apply(state [3]string) [3]string {
+	if w.full {
+		copy(state[:], w.payload)
+	} else {
+		state[w.item] = w.marker()
+	}
+	return state
+}
+
+// callOK is Peer.CallOK without the goroutine barrier (which can not be passed while invocations of
+// approval callbacks are waiting for their verdicts): it waits for the result of the call instead.
+func (e *env) callOK(p *world.Peer, cmd model.CmdType) bool {
+	d := p.Msg(model.CmdClassifierTypeCall, p.NM(), world.LocalNM(), true, nil, cmd)
+	p.Send(d)
+	n, ok := 0, true
+	waitFor(func() bool {
+		n, ok = 0, true
+		for _, s := range p.Cap.All() {
+			if s.Classifier() == model.CmdClassifierTypeResult && s.Ref() != nil && *s.Ref() == *d.Header.MsgCounter {
+				n++
+				ok = ok && s.ErrorNumber() == 0
+			}
+		}
+		return n > 0
+	}, 400*timeout)
+	return n == 1 && ok
+}
+
+// listOf: the complete list with the given texts for the items 0, 1, ...
+func listOf(texts []string) *model.AlarmListDataType {
+	list := &model.AlarmListDataType{}
+	for i, text := range texts {
+		list.AlarmListData = append(list.AlarmListData, model.AlarmDataType{AlarmId: util.Ptr(model.AlarmIdType(i)), Description: util.Ptr(model.DescriptionType(text))})
+	}
+	return list
+}
+
+func (e *env) state() (st [3]string) {
+	for i := range st {
+		st[i] = e.description(i)
+	}
+	return
+}
 
 func (e *env) send(w write) {
 	p := e.peers[w.peer]
@@ -97,6 +244,10 @@ func (e *env) send(w write) {
 		AlarmListData: &model.AlarmListDataType{AlarmListData: []model.AlarmDataType{
 			{AlarmId: util.Ptr(model.AlarmIdType(w.item)), Description: util.Ptr(model.DescriptionType(w.marker()))},
 		}},
+	}
+	if w.full {
+		cmd.Filter = nil
+		cmd.AlarmListData = listOf(w.payload)
 	}
 	dst := *e.srv.Address()
 	if w.bareDst {
@@ -168,7 +319,7 @@ func waitFor(cond func() bool, max time.Duration) bool {
 func describe(ws []write) string {
 	var l []string
 	for _, w := range ws {
-		l = append(l, fmt.Sprintf("write peer%d item%d counter=%d ack=%v verdicts=%v late=%v", w.peer+1, w.item, w.counter, w.ack, w.verdict, w.late))
+		l = append(l, fmt.Sprintf("write peer%d item%d %s counter=%d ack=%v verdicts=%v late=%v", w.peer+1, w.item, w.shape(), w.counter, w.ack, w.verdict, w.late))
 	}
 	return "\n " + strings.Join(l, "\n ")
 }
@@ -181,6 +332,16 @@ func TestApprovalMatrix(t *testing.T) {
 		nW := rapid.IntRange(1, 3).Draw(t, "writes")
 		e := newEnv(2, nCb)
 		defer e.w.Teardown()
+		defer e.releaseGates() // (before the teardown) no invocation stays behind, however the case ends
+		// how a callback gives its verdicts: from outside after having returned at once (the application
+		// decides later), or from inside the invocation, which lasts until the verdict is due - for a
+		// silent callback until the case is over
+		blocking := make([]bool, nCb)
+		anyBlocking := false
+		for c := range blocking {
+			blocking[c] = rapid.IntRange(0, 3).Draw(t, fmt.Sprintf("verdictsFromInsideCallback%d", c)) == 0
+			anyBlocking = anyBlocking || blocking[c]
+		}
 		var ws []write
 		used := map[string]bool{}
 		for i := 0; i < nW; i++ {
@@ -196,6 +357,12 @@ func TestApprovalMatrix(t *testing.T) {
 				w.verdict = append(w.verdict, rapid.SampledFrom([]string{approve, approve, approve, deny, silent}).Draw(t, fmt.Sprintf("verdict%d.%d", i, c)))
 				w.late = append(w.late, rapid.IntRange(0, 5).Draw(t, fmt.Sprintf("late%d.%d", i, c)) == 0)
 			}
+			switch rapid.SampledFrom([]string{"partial", "partial", "partial", "partial", "full-same", "full-same", "full"}).Draw(t, fmt.Sprintf("shape%d", i)) {
+			case "full-same":
+				w.full, w.same = true, true // the payload is taken when the write is sent
+			case "full":
+				w.full, w.payload = true, w.fullPayload()
+			}
 			ws = append(ws, w)
 		}
 		// delivery order: a drawn permutation of all (write, callback) pairs
@@ -207,33 +374,65 @@ func TestApprovalMatrix(t *testing.T) {
 			}
 		}
 		perm := rapid.Permutation(order).Draw(t, "order")
+		for _, w := range ws {
+			for c := 0; c < nCb; c++ {
+				if blocking[c] {
+					e.block(w, c)
+				}
+			}
+		}
+		initial := e.state()
 		// a server feature has one binding at a time: the binding is handed to the writer before
 		// each write (authorisation is checked when the write arrives; it then stays pending)
 		holder := -1
-		begin := time.Now()
 		var sent []time.Time
-		for _, w := range ws {
+		call := func(p *world.Peer, cmd model.CmdType) bool {
+			if anyBlocking {
+				return e.callOK(p, cmd)
+			}
+			return p.CallOK(cmd)
+		}
+		for i := range ws {
+			w := &ws[i]
 			if holder != w.peer {
 				if holder >= 0 {
 					h := e.peers[holder]
-					h.CallOK(world.UnbindCall(h.FA([]uint{1}, 1), e.srv.Address()))
+					call(h, world.UnbindCall(h.FA([]uint{1}, 1), e.srv.Address()))
 				}
 				p := e.peers[w.peer]
-				if !p.CallOK(world.BindCall(p.FA([]uint{1}, 1), e.srv.Address(), model.FeatureTypeTypeAlarm)) {
+				if !call(p, world.BindCall(p.FA([]uint{1}, 1), e.srv.Address(), model.FeatureTypeTypeAlarm)) {
 					t.Fatalf("harness: binding not granted")
 				}
 				holder = w.peer
 			}
+			if w.same {
+				now := e.state()
+				w.payload = now[:]
+				if !reflect.DeepEqual(e.srv.DataCopy(model.FunctionTypeAlarmListData), listOf(w.payload)) {
+					t.Fatalf("harness: the repeated payload is not the data the feature holds")
+				}
+			}
 			sent = append(sent, time.Now())
-			e.send(w)
+			e.send(*w)
 		}
-		_ = begin
-		// every callback is invoked once per write
+		// every callback is invoked once per write, whether or not the invocations of the other callbacks have returned
 		if !waitFor(func() bool { e.mu.Lock(); defer e.mu.Unlock(); return len(e.calls) >= nW*nCb }, 400*timeout) {
 			e.mu.Lock()
 			n := len(e.calls)
 			e.mu.Unlock()
-			world.Fail(t, "C12/callback-not-invoked", "%d approval callback invocations for %d writes x %d callbacks%s", n, nW, nCb, describe(ws))
+			world.Fail(t, "C12/callback-not-invoked", "%d approval callback invocations for %d writes x %d callbacks (callbacks whose invocation lasts until the verdict is given: %v)%s", n, nW, nCb, blocking, describe(ws))
+		}
+		// give hands the verdict of callback c for write w to the stack: from the test goroutine, or from
+		// inside the waiting invocation (and waits until that invocation has returned)
+		stuck := false
+		give := func(w write, c int, msg *api.Message) {
+			if g := e.gateOf(w, c); g != nil {
+				if !e.verdictInside(g, w.verdict[c], 30*time.Second) {
+					stuck = true
+				}
+				return
+			}
+			e.srv.ApproveOrDenyWrite(msg, errType(w.verdict[c]))
 		}
 		for _, v := range perm {
 			w := ws[v.w]
@@ -244,7 +443,7 @@ func TestApprovalMatrix(t *testing.T) {
 			if msg == nil {
 				world.Fail(t, "C12/callback-wrong-message", "callback %d was not invoked with the message of %s%s", v.c, w.marker(), describe(ws))
 			}
-			e.srv.ApproveOrDenyWrite(msg, errType(w.verdict[v.c]))
+			give(w, v.c, msg)
 		}
 		early := time.Duration(0)
 		for i := range ws {
@@ -252,25 +451,52 @@ func TestApprovalMatrix(t *testing.T) {
 				early = d
 			}
 		}
-		if early > timeout/2 {
+		if early > timeout/2 || stuck {
 			// the harness was too slow to be sure the early verdicts arrived before the time-out
 			world.Record(world.Hash("discarded"), false, "discarded/slow-harness")
+			e.releaseGates()
 			time.Sleep(2 * timeout)
 			e.w.Sync()
 			return
 		}
-		// wait until every write has an outcome (the silent / late ones time out)
-		expectOutcome := func(w write) bool {
-			s, er := e.outcomes(w)
-			approvedEarly := true
+		// the writes every callback approved in time, and what the data may be afterwards: the statement
+		// does not fix the order in which approved writes are applied, so every order is accepted (with
+		// partial writes of different items all orders give the same data)
+		var approved []write
+		isApproved := func(w write) bool {
 			for c := range w.verdict {
 				if w.verdict[c] != approve || w.late[c] {
-					approvedEarly = false
+					return false
 				}
 			}
-			if approvedEarly && !w.ack {
-				return e.description(w.item) == w.marker()
+			return true
+		}
+		for _, w := range ws {
+			if isApproved(w) {
+				approved = append(approved, w)
 			}
+		}
+		allowed := map[[3]string]bool{}
+		var fold func(st [3]string, rest []write)
+		fold = func(st [3]string, rest []write) {
+			if len(rest) == 0 {
+				allowed[st] = true
+				return
+			}
+			for i := range rest {
+				var others []write
+				others = append(others, rest[:i]...)
+				others = append(others, rest[i+1:]...)
+				fold(rest[i].apply(st), others)
+			}
+		}
+		fold(initial, approved)
+		// wait until every write has an outcome (the silent / late ones time out)
+		expectOutcome := func(w write) bool {
+			if isApproved(w) && !w.ack {
+				return allowed[e.state()]
+			}
+			s, er := e.outcomes(w)
 			return s+er >= 1
 		}
 		waitFor(func() bool {
@@ -288,11 +514,16 @@ func TestApprovalMatrix(t *testing.T) {
 				continue
 			}
 			if msg := e.msgFor(w, v.c); msg != nil {
-				e.srv.ApproveOrDenyWrite(msg, errType(w.verdict[v.c]))
+				give(w, v.c, msg)
 			}
 		}
 		time.Sleep(timeout + 10*time.Millisecond) // a second outcome would show up now
+		e.releaseGates()                          // the invocations of the silent callbacks end
 		e.w.Sync()
+		if stuck {
+			world.Record(world.Hash("discarded"), false, "discarded/slow-harness")
+			return
+		}
 
 		// ---- judge each write from its own verdict row only
 		e.mu.Lock()
@@ -311,42 +542,60 @@ func TestApprovalMatrix(t *testing.T) {
 		e.mu.Unlock()
 		nt := nW >= 2
 		var rows []string
+		final := e.state()
+		approvedFulls := 0
+		for _, w := range approved {
+			if w.full {
+				approvedFulls++
+			}
+		}
 		for _, w := range ws {
 			for c := 0; c < nCb; c++ {
 				if n := perKey[fmt.Sprintf("%d/%s/%d", c, e.peers[w.peer].Ski, w.counter)]; n != 1 {
 					world.Fail(t, "C12/callback-count", "callback %d was invoked %d times for %s%s", c, n, w.marker(), describe(ws))
 				}
 			}
-			approvedEarly := true
+			approvedEarly := isApproved(w)
 			for c := range w.verdict {
-				if w.verdict[c] != approve || w.late[c] {
-					approvedEarly = false
-				}
 				if w.late[c] && w.verdict[c] != silent {
 					nt = true
 				}
 			}
 			s, er := e.outcomes(w)
-			applied := e.description(w.item) == w.marker()
-			rows = append(rows, fmt.Sprintf("%v/%v/%v", w.verdict, w.late, w.ack))
-			what := fmt.Sprintf("%s: success results=%d error results=%d applied=%v (item now %q)", w.marker(), s, er, applied, e.description(w.item))
+			// is the write visible in the data? (a write that repeats the present data never is; an approved
+			// full write may have replaced what another approved write had written)
+			visible, hidden := false, w.same
+			switch {
+			case w.same:
+			case w.full:
+				for i, text := range w.payload {
+					visible = visible || final[i] == text
+				}
+				hidden = approvedFulls > 1
+			default:
+				visible = final[w.item] == w.marker()
+				hidden = approvedFulls > 0
+			}
+			rows = append(rows, fmt.Sprintf("%s/%v/%v/%v", w.shape(), w.verdict, w.late, w.ack))
+			what := fmt.Sprintf("%s (%s): success results=%d error results=%d, visible in the data=%v (items now %q)", w.marker(), w.shape(), s, er, visible, final)
 			if approvedEarly {
 				wantS := 0
 				if w.ack {
 					wantS = 1
 				}
-				if !applied || er != 0 || s != wantS {
+				missing := !visible && !hidden
+				if missing || er != 0 || s != wantS {
 					kind := "not-applied"
-					if applied {
+					if !missing {
 						kind = "result-count"
 					}
-					if er > 0 && !applied {
+					if er > 0 && !visible {
 						kind = "timed-out-although-approved"
 					}
 					world.Fail(t, fmt.Sprintf("C12/approved-write/%s/pending-%d", kind, nW), "every callback approved %s in time, but %s%s", w.marker(), what, describe(ws))
 				}
 			} else {
-				if applied {
+				if visible {
 					world.Fail(t, fmt.Sprintf("C12/unapproved-write-applied/pending-%d", nW), "%s was not approved by every callback in time, but %s%s", w.marker(), what, describe(ws))
 				}
 				if er != 1 || s != 0 {
@@ -354,10 +603,31 @@ func TestApprovalMatrix(t *testing.T) {
 				}
 			}
 		}
+		// the data are those of the approved writes applied (in some order) to the initial data, nothing else
+		if !allowed[final] {
+			var l []string
+			for st := range allowed {
+				l = append(l, fmt.Sprintf("%q", st))
+			}
+			sort.Strings(l)
+			world.Fail(t, fmt.Sprintf("C12/data-not-of-approved-writes/pending-%d", nW), "%d writes were approved by every callback in time; the items are now %q, with the approved writes applied in any order they would be one of %s%s", len(approved), final, strings.Join(l, " | "), describe(ws))
+		}
 		sort.Strings(rows)
-		world.Record(world.Hash(nCb, rows, fmt.Sprint(perm)), nt, fmt.Sprintf("callbacks/%d", nCb), fmt.Sprintf("pending/%d", nW))
+		labels := []string{fmt.Sprintf("callbacks/%d", nCb), fmt.Sprintf("pending/%d", nW)}
+		if anyBlocking {
+			labels = append(labels, "matrix/verdicts-from-inside-a-callback")
+		}
+		for _, sh := range []string{"full", "full-same"} {
+			for _, w := range ws {
+				if w.shape() == sh {
+					labels = append(labels, "matrix/write-"+sh)
+					break
+				}
+			}
+		}
+		world.Record(world.Hash(nCb, rows, fmt.Sprint(perm), blocking), nt, labels...)
 		if nt && world.WantSample() {
-			world.Sample(map[string]any{"callbacks": nCb, "writes": strings.Split(strings.TrimSpace(describe(ws)), "\n "), "delivery_order": fmt.Sprint(perm)})
+			world.Sample(map[string]any{"callbacks": nCb, "verdicts_from_inside_callback": blocking, "writes": strings.Split(strings.TrimSpace(describe(ws)), "\n "), "delivery_order": fmt.Sprint(perm)})
 		}
 	}))
 }
